@@ -37,10 +37,18 @@ package kernel
 
 // The result is the member list of the LAST cached sequence whose timestamp is below the threshold (ListIdx determines i uniquely),
 // or empty when there is none. Stated existentially (a universally quantified "forall i :: ListIdx(i) ==> ..." assumption makes a matching loop).
+// LastBelow(seqs, ts, n): the index of the last sequence among seqs[0..n) whose timestamp is below ts, -1 if there is none -- the index
+// ListIdx determines, as a FUNCTION (so that "the list at ts", "the threshold at ts" are terms, not existentials).
+//@ rec LastBelow(seqs []*NodeStateSequence, ts uint64, n int) mathint = n <= 0 ? 0 - 1 : (seqs[n - 1].Timestamp < ts ? n - 1 : LastBelow(seqs, ts, n - 1))
+//@ reclimit LastBelow
+//@ spec ListAtIdx(node *Node, ts uint64) mathint = LastBelow(node.nodeStateSequences, ts, len(node.nodeStateSequences))
 //@ func (node *Node) NodesListWithoutState
 //@   property C10, C29, C11
 //@   requires NodeRep(node)
 //@   modifies nothing
+//@   ensures [idx] let j == LastBelow(SeqsOf(node, acceptedOnly), threshold, len(SeqsOf(node, acceptedOnly))) in
+//@       (j < 0 ==> len(result) == 0) && (j >= 0 ==> j < len(SeqsOf(node, acceptedOnly)) && result == SeqsOf(node, acceptedOnly)[j].NodesWithoutState)
+//@   loop 0 invariant [idx] LastBelow(sequences, threshold, len(sequences)) == LastBelow(sequences, threshold, i)
 //@   ensures [list] IsList(SeqsOf(node, acceptedOnly), threshold, result)
 //@   ensures [elems] forall j int :: 0 <= j && j < len(result) ==> result[j] != nil
 //@   loop 0 invariant 0 <= i && i <= len(sequences) && sequences == SeqsOf(node, acceptedOnly)
@@ -67,18 +75,48 @@ package kernel
 //@   pure
 //@   ensures result <==> Ready(node, cn, timestamp)
 
+// ───────────── the ONE definition of the node excluded at a timestamp (C10, C09) ─────────────
+// RemCand(node, ts) is what removingOrSlashingNodeAt(ts) returns. The function is verified to write nothing; it does not range over
+// a map, read the clock or communicate, so its result is a function of its arguments and of the memory it reads (the node's epoch and
+// cached membership sequences and their CNodes): that DETERMINISM is the assumption `[det]` below -- its functional content stays
+// described by the verified clause [cand]. Predictive is the fork gate usePredictiveNodeRemovalSignerSet, written out.
+// RemovingAt(node, ts) is the node BOTH ConsensusThreshold (threshold base) and consensusNodes (signer key set) must skip.
+//@ uninterp RemCand(node *Node, ts uint64) *CNode reads uint64, byte, string, int, *CNode, []*CNode, *NodeStateSequence, []*NodeStateSequence, map[crypto.Hash]bool
+//@ spec Predictive(node *Node, ts uint64) bool = node.networkId.String() != config.KernelNetworkId || ts >= mainnetConsensusNodeRemovalSignerSetForkAt
+//@ spec RemovingAt(node *Node, ts uint64) *CNode = Predictive(node, ts) ? RemCand(node, ts) : nil
+
 //@ func (node *Node) removingOrSlashingNodeAt
 //@   property C10, C29
 //@   requires NodeRep(node)
 //@   modifies nothing
+//@   assumes [det] result == old(RemCand(node, timestamp))
 //@   ensures [cand] result != nil ==> timestamp >= node.Epoch && AcceptHour(node, timestamp) &&
 //@       (exists i int :: ListIdx(node.nodeStateSequences, WindowStart(node, timestamp), i) &&
 //@        len(node.nodeStateSequences[i].NodesWithoutState) > config.KernelMinimumNodesCount &&
 //@        AllSettled(node.nodeStateSequences[i].NodesWithoutState, WindowStart(node, timestamp), len(node.nodeStateSequences[i].NodesWithoutState)) &&
 //@        OldestAccepted(node.nodeStateSequences[i].NodesWithoutState, len(node.nodeStateSequences[i].NodesWithoutState), result))
 
+// Machine-checked counting (replaces the paper argument "#selected <= #counted"):
+//   CountBase(node, l, rem, ts, final, n)  how many of l[0..n) ConsensusThreshold counts (not excluded as rem, Counted)
+//   CountSel(node, l, rem, ts, n)          how many of l[0..n) consensusNodes selects (not excluded as rem, Ready)
+//@ rec CountBase(node *Node, l []*CNode, rem *CNode, ts uint64, final bool, n int) mathint =
+//@     n <= 0 ? 0 : CountBase(node, l, rem, ts, final, n - 1) + ((!Excluded(rem, l[n - 1]) && Counted(node, l[n - 1], ts, final)) ? 1 : 0)
+//@ rec CountSel(node *Node, l []*CNode, rem *CNode, ts uint64, n int) mathint =
+//@     n <= 0 ? 0 : CountSel(node, l, rem, ts, n - 1) + ((!Excluded(rem, l[n - 1]) && Ready(node, l[n - 1], ts)) ? 1 : 0)
+
+//@ -- CertThresholdAt(node, ts, final): THE certificate threshold at ts -- 1000 when no membership list is cached below ts, otherwise Threshold(b)
+//@ -- with b the count, over the list at ts, of the nodes that are Counted and are not the node RemovingAt(node, ts).
+//@ -- SelCountAt(node, ts): how many nodes of that list consensusNodes selects (Ready and not RemovingAt(node, ts)).
+//@ spec ListAt(node *Node, ts uint64) []*CNode = node.nodeStateSequences[ListAtIdx(node, ts)].NodesWithoutState
+//@ spec BaseAt(node *Node, ts uint64, final bool) mathint = ListAtIdx(node, ts) < 0 ? 0 : CountBase(node, ListAt(node, ts), RemovingAt(node, ts), ts, final, len(ListAt(node, ts)))
+//@ spec CertThresholdAt(node *Node, ts uint64, final bool) mathint = Threshold(BaseAt(node, ts, final))
+//@ spec SelCountAt(node *Node, ts uint64) mathint = ListAtIdx(node, ts) < 0 ? 0 : CountSel(node, ListAt(node, ts), RemovingAt(node, ts), ts, len(ListAt(node, ts)))
+
+//@ reclimit CountBase
+//@ reclimit CountSel
+
 //@ func (node *Node) ConsensusThreshold
-//@   property C10
+//@   property C10, C09
 //@   requires NodeRep(node)
 //@   modifies nothing
 //@   ensures [range] result == 1000 || (exists b int :: config.KernelMinimumNodesCount <= b && result == b * 2 / 3 + 1 &&
@@ -86,6 +124,13 @@ package kernel
 //@   ensures [nonecounted] (NoList(node.nodeStateSequences, timestamp) || (exists i int :: ListIdx(node.nodeStateSequences, timestamp, i) &&
 //@       (forall k int :: 0 <= k && k < len(node.nodeStateSequences[i].NodesWithoutState) ==> !Counted(node, node.nodeStateSequences[i].NodesWithoutState[k], timestamp, final))))
 //@       ==> result == 1000
+//@   ensures [base] result == old(CertThresholdAt(node, timestamp, final))
+//@   hint return [total] consensusBase == CountBase(node, nodes, old(RemovingAt(node, timestamp)), timestamp, final, len(nodes))
+//@   hint return [witness] consensusBase == old(BaseAt(node, timestamp, final))
+//@   loop 0 invariant [count] consensusBase == CountBase(node, nodes, removing, timestamp, final, rangeindex + 1)
+//@   loop 0 invariant [list] IsList(node.nodeStateSequences, timestamp, nodes)
+//@   hint at "nodes := node.NodesListWithoutState(timestamp, false)" [removing] removing == old(RemovingAt(node, timestamp))
+//@   loop 0 invariant [removing] removing == old(RemovingAt(node, timestamp))
 //@   -- C24 names the value: ThresholdAt(node, timestamp, final) (zz_contracts_c24_verif.go). ASSUMED, not verified against the body: the threshold is a
 //@   -- function of the node object, the timestamp and `final` while one expiry pass runs (the membership view is not written by that pass).
 //@   assumes result == ThresholdAt(node, timestamp, final)
@@ -97,16 +142,22 @@ package kernel
 //@ spec SameNode(a *CNode, b *CNode) bool = a.IdForNetwork == b.IdForNetwork && a.Signer == b.Signer && a.Payee == b.Payee &&
 //@     a.Transaction == b.Transaction && a.Timestamp == b.Timestamp && a.State == b.State
 
+//@ spec PledgerCount(chain *Chain, round uint64) mathint = (Pledging(chain) && round == 0) ? 1 : 0
 //@ func (chain *Chain) consensusNodes
-//@   property C10
+//@   property C10, C09
+//@   uses readsframe
 //@   requires chain != nil && NodeRep(chain.node)
 //@   modifies nothing
+//@   ensures [count] len(result) == PledgerCount(chain, round) + old(SelCountAt(chain.node, timestamp))
+//@   loop 0 invariant [count] len(participants) == old(CountSel(chain.node, nodes, RemovingAt(chain.node, timestamp), timestamp, rangeindex + 1))
 //@   ensures [len] (NoList(chain.node.nodeStateSequences, timestamp) && len(result) <= ((Pledging(chain) && round == 0) ? 1 : 0)) ||
 //@       (exists i int :: ListIdx(chain.node.nodeStateSequences, timestamp, i) &&
 //@        len(result) <= len(chain.node.nodeStateSequences[i].NodesWithoutState) + ((Pledging(chain) && round == 0) ? 1 : 0))
 //@   ensures [index] forall k int :: 0 <= k && k < len(result) ==> result[k] != nil && fresh(result[k]) && result[k].ConsensusIndex == k
 //@   ensures [ready] forall k int :: 0 <= k && k < len(result) - ((Pledging(chain) && round == 0) ? 1 : 0) ==> Ready(chain.node, result[k], timestamp)
 //@   ensures [pledger] Pledging(chain) && round == 0 ==> len(result) > 0 && SameNode(result[len(result) - 1], chain.ConsensusInfo)
+//@   hint at "nodes := chain.node.NodesListWithoutState(timestamp, false)" [removing] removing == old(RemovingAt(chain.node, timestamp))
+//@   loop 0 invariant [removing] removing == old(RemovingAt(chain.node, timestamp))
 //@   loop 0 invariant [list] IsList(chain.node.nodeStateSequences, timestamp, nodes)
 //@   loop 0 invariant cap(participants) == 0 || fresh(participants)
 //@   loop 0 invariant 0 <= len(participants) && len(participants) <= rangeindex + 1
@@ -116,10 +167,17 @@ package kernel
 //@   loop 0 invariant [exact1] (forall k int :: 0 <= k && k <= rangeindex ==> (!Excluded(removing, nodes[k]) && Ready(chain.node, nodes[k], timestamp))) ==> len(participants) == rangeindex + 1
 
 // The key vector a certificate is verified against: one id and one public key per participant, same order.
+//@ -- CKPrefix(chain, round, ts, h, s): the byte string  h | s | key_0 | … | key_n-1  for the key vector ConsensusKeys(round, ts) returns.
+//@ -- ASSUMED ([det] below): ConsensusKeys is verified to write nothing, does not range over a map, read the clock or communicate, so the
+//@ -- CONTENT of the vector it returns is a function of its arguments and of the memory it reads. What that content is, structurally
+//@ -- (how many keys, which nodes: Ready and not RemovingAt), is the verified part ([len], [count], consensusNodes).
+//@ uninterp CKPrefix(chain *Chain, round uint64, ts uint64, h mathint, s mathint) mathint reads uint64, byte, string, int, *CNode, []*CNode, *NodeStateSequence, []*NodeStateSequence, *Node, *ChainState, map[crypto.Hash]bool
 //@ func (chain *Chain) ConsensusKeys
-//@   property C10
+//@   property C10, C09
 //@   requires chain != nil && NodeRep(chain.node)
 //@   modifies nothing
+//@   ensures [count] len(result1) == PledgerCount(chain, round) + old(SelCountAt(chain.node, timestamp))
+//@   assumes [det] forall h, s mathint :: {KeyPrefix(h, s, result1, len(result1))} KeyPrefix(h, s, result1, len(result1)) == old(CKPrefix(chain, round, timestamp, h, s))
 //@   ensures [len] len(result0) == len(result1) &&
 //@       ((NoList(chain.node.nodeStateSequences, timestamp) && len(result1) <= ((Pledging(chain) && round == 0) ? 1 : 0)) ||
 //@        (exists i int :: ListIdx(chain.node.nodeStateSequences, timestamp, i) &&
@@ -155,3 +213,27 @@ package kernel
 //@   requires node != nil && cn != nil && 0 <= cn.Timestamp && cn.Timestamp < 9223372036854775808
 //@   ensures [final] Ready(node, cn, ts) ==> Counted(node, cn, ts, true)
 //@   ensures [cache] Ready(node, cn, ts) ==> Counted(node, cn, ts, false)
+
+// ───────────── counting: signer set <= threshold base, on the SAME list with the SAME excluded node (C10) ─────────────
+//@ spec ListOK(l []*CNode) bool = forall k int :: 0 <= k && k < len(l) ==> l[k] != nil && 0 <= l[k].Timestamp && l[k].Timestamp < 9223372036854775808
+
+//@ lemma SelLeBase(node *Node, l []*CNode, rem *CNode, ts uint64, n mathint)
+//@   property C10
+//@   induct n
+//@   -- by induction on the prefix length: every node consensusNodes selects is counted by ConsensusThreshold(ts, final) for both
+//@   -- values of final (pointwise step = lemma ReadyImpliesCounted), the excluded node being the same on both sides
+//@   requires node != nil && ListOK(l) && 0 <= n && n <= len(l)
+//@   ensures [final] CountSel(node, l, rem, ts, n) <= CountBase(node, l, rem, ts, true, n)
+//@   ensures [cache] CountSel(node, l, rem, ts, n) <= CountBase(node, l, rem, ts, false, n)
+//@   ensures [bounds] 0 <= CountSel(node, l, rem, ts, n) && CountBase(node, l, rem, ts, true, n) <= n
+
+//@ lemma CertificateQuorum(node *Node, l []*CNode, rem *CNode, ts uint64)
+//@   property C10
+//@   uses SelLeBase, QuorumIntersection
+//@   -- the statement of C10 on PROVED quantities: n = the number of keys consensusNodes selects from the list (post [count]),
+//@   -- b = the base ConsensusThreshold(ts, true) counts on the same list with the same excluded node (post [base]):
+//@   -- two certificates that meet Threshold(b) share more than a third of the n keys (round-zero pledger excluded: F4)
+//@   requires node != nil && ListOK(l)
+//@   ensures [third] let b == CountBase(node, l, rem, ts, true, len(l)) in let n == CountSel(node, l, rem, ts, len(l)) in
+//@       b >= config.KernelMinimumNodesCount ==> n <= b && 3 * (2 * Threshold(b) - n) > n && Threshold(b) <= b
+//@   ensures [unmeetable] let b == CountBase(node, l, rem, ts, true, len(l)) in b < config.KernelMinimumNodesCount ==> Threshold(b) == 1000
